@@ -1418,23 +1418,34 @@ func keyDomain(ctx *hx.Ctx) {
 // messages outside the well-formedness conditions: Marshal correspondence only (plus the nil-header finding)
 func marshalDomain(ctx *hx.Ctx) {
 	r := ctx.Rng
-	// known finding: a message with a body and a nil Header map
+	// regression (fixed by /repo c1d5d94; was a known finding): a message with a body and a nil Header map must
+	// marshal (the oracle class stays: a panic here is reported again) and must be read back with its
+	// Content-Length like any other message
 	{
-		m := &base.Request{Method: base.Announce, URL: mustURL("rtsp://h/s"), Body: []byte("v=0\r\n")}
-		cl := marshalCase(m)
-		il, _, panicked := marshalImpl(m)
-		idx := ctx.Corr(cl, il)
-		ctx.Eval()
-		if panicked {
-			ctx.Failf(idx, "marshal-nil-header-with-body-panics", cl, "Request{Method, URL, Body} with a nil Header: Marshal panics (assignment to entry in nil map)")
+		mk := func() []any {
+			return []any{
+				&base.Request{Method: base.Announce, URL: mustURL("rtsp://h/s"), Body: []byte("v=0\r\n")},
+				&base.Response{StatusCode: 200, Body: []byte("x")},
+			}
 		}
-		m2 := &base.Response{StatusCode: 200, Body: []byte("x")}
-		cl = marshalCase(m2)
-		il, _, panicked = marshalImpl(m2)
-		idx = ctx.Corr(cl, il)
-		ctx.Eval()
-		if panicked {
-			ctx.Failf(idx, "marshal-nil-header-with-body-panics", cl, "Response{StatusCode, Body} with a nil Header: Marshal panics (assignment to entry in nil map)")
+		var cl, il string
+		var idx int
+		var panicked bool
+		nilPanics := 0
+		for _, m := range mk() {
+			cl = marshalCase(m)
+			il, _, panicked = marshalImpl(m)
+			idx = ctx.Corr(cl, il)
+			ctx.Eval()
+			ctx.Kind("marshal nil Header with body (regression)")
+			if panicked {
+				nilPanics++
+				ctx.Failf(idx, "marshal-nil-header-with-body-panics", cl, "%T{..., Body} with a nil Header: Marshal panics (assignment to entry in nil map)", m)
+			}
+		}
+		if nilPanics == 0 {
+			sc := buildSeq(ctx, mk(), false)
+			runSeqCase(ctx, sc, true)
 		}
 		for _, m3 := range []any{&base.Request{Method: base.Play}, &base.Response{StatusCode: 404}} {
 			cl = marshalCase(m3)
